@@ -13,7 +13,7 @@ import StraxModel.Generated.ShouldSave
     c11.should <P> <inTargets> <inSave>      (the GENERATED `_target_should_be_saved`)
     c11.swval <P>                            (the GENERATED SaveWhen value)
     c11.wetake <exclude> <takeOnly> <t>
-    c11.topo <graph>                         (hypothesis of `acyclic_no_recursion_error`)
+    c11.topo <graph>    answer `ok <topoOrdered><unique providers>` (hypotheses of `getComponents_ok_iff`)
 -/
 namespace Strax.Driver
 open Strax Strax.Components
@@ -102,7 +102,8 @@ def handleC11 : List String → Option String
     pure (if f.weTake t then "ok 1" else "ok 0")
   | ["c11.topo", g] => do
     let g ← parseGraph g
-    pure (if topoOrdered g then "ok 1" else "ok 0")
+    let b (x : Bool) := if x then "1" else "0"
+    pure s!"ok {b (topoOrdered g)}{b (decide (allTypes g).Nodup)}"
   | _ => none
 
 end Strax.Driver
